@@ -57,7 +57,8 @@ func (s *Server) serveSign(rw http.ResponseWriter, request *http.Request) error 
 	}
 	// configure signer
 	mod := signers.ByName(sigType)
-	if mod == nil {
+	if mod == nil || mod.Sign == nil {
+		// also types that can only be verified
 		hlog.FromRequest(request).Error().Str("sigtype", sigType).Msg("signature type not found")
 		return httperror.ErrUnknownSignatureType
 	}
